@@ -164,7 +164,7 @@ def judge_file(ctx, path, what, rc=0, out="", harness_args=None):
             r = json.loads(x)
         except ValueError:
             continue
-        if not (isinstance(r, dict) and r.get("f") in ("hist", "scan", "entry")):
+        if not (isinstance(r, dict) and r.get("f") in ("hist", "scan", "longline", "entry")):
             continue
         recs.append(x)
         if "crash" in r:
@@ -258,6 +258,9 @@ def _report(ctx, vd, lines, path, what):
         elif rec["f"] == "scan":
             payload = {"script": {"text": rec["text"], "scan": rec["k"], "ch": rec["ch"]}, "record": rec}
             desc = "scan record %s" % json.dumps(rec, separators=(",", ":"))[:500]
+        elif rec["f"] == "longline":
+            payload = {"harness_args": ["longline", "OUT", str(ctx.seed)], "record": rec}
+            desc = "longline record (text = pre ++ fill^n) %s" % json.dumps(rec, separators=(",", ":"))[:700]
         else:
             payload = {"script": {"text": rec["text"], "entry": 1, "ch": rec["ch"]}, "record": rec}
             desc = "entry record %s" % json.dumps(rec, separators=(",", ":"))[:400]
@@ -308,6 +311,8 @@ def count_classes(ctx, lines, cap=60000):
                     bad = True
         elif r["f"] == "entry":
             ctx.count_class((r["ch"], "entry", r["kind"], r["res"], min(r["line"], 3)))
+        elif r["f"] == "longline":
+            ctx.count_class((r["ch"], "longline", r["fill"] == 10, len(r["pre"])))
         else:
             ctx.count_class((r["ch"], "scan", len(r["text"]), min(r["text"].count(10), 3)))
 
@@ -413,6 +418,11 @@ def run(ctx):
     for l in sample[40:42]:
         ctx.sample(json.loads(l))
     ctx.extra["record_texts_exhaustive_upto"] = maxlen
+    # lines longer than 2^16 columns / texts with more than 2^16 lines, char and wchar_t (12 compact records)
+    nl, _ = run_shards(ctx, binary, lambda p, sh: ["longline", p, ctx.seed + sh], 1, "longline", 1)
+    ctx.evaluations += nl
+    ctx.traces_validated += nl
+    ctx.extra["longline_records"] = nl
     scan_upto = maxlen
     if thorough:
         # exhaustive sweep over the long texts with one compact fixed-shape history each:
